@@ -343,7 +343,7 @@ def run_call(case):
 # histories: shared series, settings dicts and model objects
 # ------------------------------------------------------------------------------------------------------
 HIST_OPS = ['dist', 'dist_c', 'wps', 'matrix', 'matrix_c', 'dba_c', 'dba_loop_c', 'search', 'hier', 'hier_tree', 'kmeans', 'sa',
-            'lbk', 'search_reuse']
+            'lbk', 'search_reuse', 'lc', 'lc_c']
 
 
 @st.composite
@@ -412,6 +412,17 @@ def _hist_apply(op, coll, opts, models, n):
             return [(float(m.distance), int(m.idx))]
         k = None if j % 5 == 4 else j % 5
         return [(float(m.distance), int(m.idx)) for m in models[key].kbest_matches(k=k)]
+    if kind in ('lc', 'lc_c'):
+        # one local-concurrence object per pair, searched again and again (every search restarts from the full matrix)
+        import itertools
+        from dtaidistance.subsequence.localconcurrences import LocalConcurrences
+        key = '%s-%d-%d' % (kind, i, j)
+        if key not in models:
+            models[key] = LocalConcurrences(a, b, gamma=0.5, tau=0.3, delta=-0.5, delta_factor=0.5, window=opts.get('window'),
+                                            use_c=(kind == 'lc_c'))
+            models[key].align()
+        it = models[key].kbest_matches(k=2, minlen=1, buffer=0, restart=True)
+        return [(int(m.row), int(m.col), [(int(x), int(y)) for x, y in m.path]) for m in itertools.islice(it, 4)]
     if kind == 'hier':
         if 'hier' not in models:
             models['hier'] = Hierarchical(dtw.distance_matrix, opts, show_progress=False)
@@ -464,11 +475,17 @@ def run_hist(case):
         if snapshot(shared_coll) != snap0:
             res.fail('hist:input-modified:' + op[0], 'the shared series were modified by operation %d %r' % (k, op))
             snap0 = snapshot(shared_coll)
+        if shared_opts != case['opts']:
+            res.fail('hist:options-modified:' + op[0], 'the shared options dict %r became %r in operation %d %r'
+                     % (case['opts'], shared_opts, k, op))
+            shared_opts = dict(case['opts'])
     res.nontrivial = len(case['ops']) >= 2
     seen = set()
     for op in case['ops']:
         key = (op[0], op[1] % n) if op[0] == 'search_reuse' else op[0]
-        if key in seen and op[0] in ('search_reuse', 'hier', 'hier_tree', 'kmeans'):
+        if op[0] in ('lc', 'lc_c'):
+            key = (op[0], op[1] % n, op[2] % n)
+        if key in seen and op[0] in ('search_reuse', 'hier', 'hier_tree', 'kmeans', 'lc', 'lc_c'):
             res.cls('model-object-reused')
             break
         seen.add(key)
